@@ -408,13 +408,12 @@ func c14analyse(g *c14graph) c14info {
 }
 
 // c14cycleClass names where, seen from the root, a cyclic graph hides its
-// cycle.  The "first-slot walk" follows slot 0 of arrays/structs and the only
-// entry of single-entry maps.  If that walk itself closes a cycle the class is
-// "cyclic:first-slot-path".  Otherwise some container X on the walk holds, in
-// a slot > 0 (or, for a map with several entries, in one of its unordered
-// entries), a reference from which a cycle is reachable; the class names the
-// kind of the first such X: "cyclic:behind-array-slot>0",
-// "cyclic:behind-struct-slot>0", "cyclic:behind-unordered-map-entry".
+// cycle.  The "examined walk" follows slot 0 of arrays and structs and every
+// entry of maps.  If that walk itself closes a cycle the class is
+// "cyclic:first-slot-path".  Otherwise some array or struct X on the walk
+// holds, in a slot > 0, a reference from which a cycle is reachable; the class
+// names the kind of the first such X (preorder): "cyclic:behind-array-slot>0",
+// "cyclic:behind-struct-slot>0".
 func c14cycleClass(g *c14graph) string {
 	n := len(g.kinds)
 	reach := make([][]bool, n)
@@ -448,38 +447,65 @@ func c14cycleClass(g *c14graph) string {
 		}
 		return false
 	}
-	multi := func(i int) bool { return g.kinds[i] == 'M' && len(g.slots[i]) >= 2 }
-	var walk []int
-	seen := map[int]bool{}
-	for i := 0; ; {
-		if seen[i] {
-			return "cyclic:first-slot-path"
-		}
-		seen[i] = true
-		walk = append(walk, i)
-		if multi(i) || len(g.slots[i]) == 0 || g.slots[i][0].ref < 0 {
-			break
-		}
-		i = g.slots[i][0].ref
-	}
-	for _, x := range walk {
-		start := 1
-		if multi(x) {
-			start = 0
-		}
-		for j := start; j < len(g.slots[x]); j++ {
-			if t := g.slots[x][j].ref; t >= 0 && reachesCycle(t) {
-				switch {
-				case g.kinds[x] == 'A':
-					return "cyclic:behind-array-slot>0"
-				case g.kinds[x] == 'S':
-					return "cyclic:behind-struct-slot>0"
-				}
-				return "cyclic:behind-unordered-map-entry"
+	examined := func(i int) []int { // the children the walk descends into
+		var out []int
+		for j, s := range g.slots[i] {
+			if s.ref >= 0 && (j == 0 || g.kinds[i] == 'M') {
+				out = append(out, s.ref)
 			}
 		}
+		return out
 	}
-	return "cyclic:unclassified"
+	// pass 1: does the examined walk close a cycle?
+	colour := make([]byte, n)
+	closes := false
+	var dfs func(i int)
+	dfs = func(i int) {
+		colour[i] = 1
+		for _, c := range examined(i) {
+			switch colour[c] {
+			case 0:
+				dfs(c)
+			case 1:
+				closes = true
+			}
+		}
+		colour[i] = 2
+	}
+	dfs(0)
+	if closes {
+		return "cyclic:first-slot-path"
+	}
+	// pass 2: first array/struct on the walk with a cycle behind a slot > 0
+	seen := make([]bool, n)
+	cls := ""
+	var walk func(i int)
+	walk = func(i int) {
+		if seen[i] || cls != "" {
+			return
+		}
+		seen[i] = true
+		if g.kinds[i] != 'M' {
+			for j := 1; j < len(g.slots[i]); j++ {
+				if t := g.slots[i][j].ref; t >= 0 && reachesCycle(t) {
+					if g.kinds[i] == 'A' {
+						cls = "cyclic:behind-array-slot>0"
+					} else {
+						cls = "cyclic:behind-struct-slot>0"
+					}
+					return
+				}
+			}
+		}
+		for _, c := range examined(i) {
+			walk(c)
+		}
+	}
+	walk(0)
+	if cls == "" {
+		cls = "cyclic:unclassified"
+	}
+	return cls
 }
 
 var c14api = map[string]string{"detect": "CircularRefAndDepthDetection", "serialize": "Serialize", "native": "BuildParamToNative", "stringify": "Stringify",
@@ -498,8 +524,6 @@ func c14key(op, cls, outcome string) string {
 		cls = "cycle-undetected:array:ref-not-in-first-slot"
 	case "cyclic:behind-struct-slot>0":
 		cls = "cycle-undetected:struct:ref-not-in-first-slot"
-	case "cyclic:behind-unordered-map-entry":
-		cls = "cycle-undetected:map:ref-not-in-first-iterated-entry"
 	case "cyclic:first-slot-path":
 		cls = "cycle-on-first-slot-path"
 	}
@@ -805,7 +829,7 @@ func c14errClass(err error) string {
 
 var c14ops = []string{"detect", "serialize", "native", "stringify", "dump", "hexstring", "resultfromneo"}
 
-const c14reps = 256 // repetitions of an op on a cyclic graph that contains a multi-entry map (Go map order is random)
+const c14reps = 32 // repetitions of an op on a cyclic graph that contains a multi-entry map (Go map order is random)
 
 type c14viol struct {
 	Key    string `json:"key"`
@@ -1817,6 +1841,5 @@ func TestVerif_C14(t *testing.T) {
 		need("serialize:cyclic:first-slot-path:rejected")
 		need("serialize:cyclic:behind-array-slot>0:rejected")
 		need("native:cyclic:behind-struct-slot>0:rejected")
-		need("stringify:cyclic:behind-unordered-map-entry:rejected")
 	}
 }
